@@ -73,7 +73,8 @@ func newBufRun(h *hctx, kind, mx, tg int, cooldown time.Duration) *bufRun {
 	// The configuration is installed before first use (in-package literal), so that the cleaner goroutine never runs a
 	// first cycle with the DEFAULT 10 ms cooldown: with new(Buffer) + SetCleanerConfig it may, and then defers all
 	// cleaning for 10 ms, which the scenarios (a few ms long) would have to wait out before every settled observation.
-	b = &Buffer{cleaner: &CleanerConfig{Cleaner: cl, Cooldown: cooldown}}
+	b = new(Buffer) // the configuration is in place before first use (field `cleaner`, the only *CleanerConfig)
+	*fld[*CleanerConfig](b, "cleaner") = &CleanerConfig{Cleaner: cl, Cooldown: cooldown}
 	if h.rng.Intn(4) == 0 {
 		// also exercise the public path
 		if err := b.SetCleanerConfig(CleanerConfig{Cleaner: cl, Cooldown: cooldown}); err != nil {
